@@ -37,3 +37,5 @@ def run(check):
         'table': None, 'index': 'C10.R5', 'kinds': 'C10.R3', 'src': None, 'pdefault': 'C10.R5'}))
     from ._shared import rule_posindex
     check.run_rule('C10.R5p', lambda c: rule_posindex(c, 'C10.R5'))
+    from ..rules_classes import rule_disagreement_remembered
+    check.run_rule('C10.R6', lambda c: rule_disagreement_remembered(c, 'C10.R6'))
